@@ -1,7 +1,7 @@
 #!/bin/bash
 # Confirms a seeded change in its scratch worktree: tests green with the patch, demo fails with it, passes without.
 # usage: verify_seed.sh <ID> [worktree]   (default worktree /root/scratch/seed2-<ID>; deliverables in <worktree>-out)
-ID=$1; WT=${2:-/root/scratch/seed7-$ID}; OUT=$WT-out; export CARGO_TARGET_DIR=$WT-target CARGO_NET_OFFLINE=true CARGO_PROFILE_DEV_DEBUG=0 CARGO_PROFILE_TEST_DEBUG=0
+ID=$1; WT=${2:-/root/scratch/${SEEDWAVE:-seed8}-$ID}; OUT=$WT-out; export CARGO_TARGET_DIR=$WT-target CARGO_NET_OFFLINE=true CARGO_PROFILE_DEV_DEBUG=0 CARGO_PROFILE_TEST_DEBUG=0
 cd $WT || exit 2
 {
 echo "== $ID: patch stat"; git diff --stat | tail -3
